@@ -55,6 +55,13 @@ def _dispersive2(W, lt):
             arc = _si.quad(lambda t: _np.sqrt(1 + (2 * float(a) * t + float(b)) ** 2), 0, x)[0]
             if abs(y - (float(a) * x * x + float(b) * x)) > 1e-9 * (1 + abs(y)) or abs(arc - dist) > 1e-6 * (1 + abs(dist)):
                 return False
+            # a straight trace written with a leading zero coefficient is the same straight trace
+            pad = lt.DispersiveTilt(trace=[0.0, float(b), 0.0], dispersion=[float(d1), float(d0)])
+            ref = lt.DispersiveTilt(trace=[float(b), 0.0], dispersion=[float(d1), float(d0)])
+            xp, yp = (float(_np.ravel(v)[0]) for v in pad.shift(wavelength=lam, xs=0.0, ys=0.0))
+            xr, yr = (float(_np.ravel(v)[0]) for v in ref.shift(wavelength=lam, xs=0.0, ys=0.0))
+            if abs(xp - xr) > 1e-6 * (1 + abs(xr)) or abs(yp - yr) > 1e-6 * (1 + abs(yr)):
+                return False
             # ... and the element propagates end to end: the same field as an element that returns that displacement outright
             class _Fixed:
                 def shift(self, xs=0., ys=0., **kw):
